@@ -344,6 +344,40 @@ pub fn run(ctx: &mut Ctx) {
             }
         }
     }
+    // identifier counts around 16/32/64 (fixed-size scratch space, strategy switches): a list
+    // against a copy that differs at one position, is a strict prefix, or is one longer
+    ctx.stratum("LI-identifier-counts-around-16-32-64", false);
+    let nli = ctx.tier.n(400, 40_000);
+    for i in 0..nli {
+        if !ctx.take() {
+            continue;
+        }
+        let mut r = Rng::for_case(ctx.seed, "C04-LI", i);
+        let n = *r.pick(&[8usize, 15, 16, 17, 31, 32, 33, 63, 64, 65, 70]);
+        let mut x = MV::new(1, 2, 3);
+        x.pre = (0..n).map(|_| r.pick(&["0", "1", "a", "b", "rc", "10", "-", "x", "00a"]).to_string()).collect();
+        let mut y = x.clone();
+        match r.below(5) {
+            0 => {
+                let at = r.below(n);
+                y.pre[at] = r.pick(ID_ATOMS).to_string();
+            }
+            1 => y.pre[n - 1] = r.pick(ID_ATOMS).to_string(),
+            2 => {
+                y.pre.truncate(n - 1 - r.below(3.min(n - 1)));
+            }
+            3 => y.pre.push(r.pick(ID_ATOMS).to_string()),
+            _ => {
+                y.build = vec!["b".into()];
+            }
+        }
+        let (cx, cy) = (x.to_crate(), y.to_crate());
+        judge_pair(ctx, &x, &y, &cx, &cy, "fields");
+        // the parsed twins, where the text fits MAX_LENGTH
+        if let (Ok(Ok(px)), Ok(Ok(py))) = (guarded(|| Version::parse(x.text())), guarded(|| Version::parse(y.text()))) {
+            judge_pair(ctx, &x, &y, &px, &py, "parsed");
+        }
+    }
     ctx.stratum("R-random-pairs", false);
     let n = ctx.tier.n(300_000, 30_000_000);
     for i in 0..n {
